@@ -70,19 +70,22 @@ ASSUMPTIONS = [
 MIN_COUNTERS = {
     'quick': {'definitions_parsed': 1500, 'units_checked': 30000,
               'reader_roundtrips': 3000, 'width_first_pairs_checked': 3000,
-              'invalid_rejected': 300, 'definitions_parsed_big': 20,
+              'invalid_rejected': 300, 'invalid_ctor_rejected': 1000,
+              'definitions_parsed_big': 20,
               'definitions_parsed_mc': 200, 'definitions_parsed_wf': 200,
               'variant_blocks_checked': 50, 'names_longer_than_200': 20},
     'thorough': {'definitions_parsed': 50000, 'units_checked': 1000000,
                  'reader_roundtrips': 100000,
                  'width_first_pairs_checked': 100000, 'invalid_rejected': 10000,
+                 'invalid_ctor_rejected': 20000,
                  'definitions_parsed_big': 500, 'definitions_parsed_mc': 5000,
                  'definitions_parsed_wf': 5000, 'variant_blocks_checked': 2000,
                  'names_longer_than_200': 500},
 }
 
 KINDS = {'plain': 7000, 'mc': 7000, 'wf': 7000, 'variants': 4500, 'big': 720,
-         'invalid': 4500}       # quick tier sizes (cases); also capped in seconds
+         'invalid': 4500, 'invalid-ctor': 9000}
+# quick tier sizes (cases); also capped in seconds
 
 
 def plan(tier, seed):
@@ -367,16 +370,165 @@ def expected_variants(d, prog):
     return out
 
 
+# ---------------------------------------------------------------------------
+# invalid inputs into every installed unit class (introspection, worker side)
+# ---------------------------------------------------------------------------
+SIGNAL_NAMES = {'input', 'in0', 'in1', 'input_a', 'input_b', 'left', 'right',
+                'x', 'y', 'w', 'z', 'sig', 'trig', 'gate', 'reset', 'source',
+                'src', 'in_', 'a', 'b', 'which', 'phase', 'freq', 'kernel'}
+COUNT_NAMES = {'channels', 'num_channels', 'numchans', 'num_chans', 'n'}
+LIST_NAMES = {'lst', 'input_list', 'values', 'array', 'inputs', 'spec_list'}
+BUF_NAMES = {'bufnum', 'buf', 'buffer', 'bufpos', 'buf_a', 'buf_b'}
+WRAPPERS = ('Out.ar(0, {x})', 'Out.kr(0, {x})',
+            'Out.kr(0, Demand.kr(Impulse.kr(1), 0, {x}))',
+            'Out.ar(0, IFFT.ar({x}))', '{x}')
+BAD_VALUES = {'nan': "float('nan')", 'none': 'None', 'string': "'abc'",
+              'object': 'object()'}
+_CATALOGUE = None
+
+
+def check_family(cls, ugn):
+    """which input check a class uses: the helper its _check_inputs delegates
+    to (mechanism key), read from the class by introspection"""
+    import inspect
+    base = ugn.SynthObject.__dict__['_check_inputs']
+    for c in cls.__mro__:
+        f = c.__dict__.get('_check_inputs')
+        if f is None:
+            continue
+        if f is base:
+            return 'default-check'
+        try:
+            src = inspect.getsource(f)
+        except Exception:
+            return c.__name__ + '-check'
+        for helper in ('_check_n_inputs', '_check_sr_as_first_input',
+                       '_check_when_audio', '_check_valid_inputs'):
+            if helper in src:
+                return f'{c.__name__}.{helper.strip("_")}'
+        return c.__name__ + '-check'
+    return 'default-check'
+
+
+def build_catalogue(gg, scgf, acc):
+    """[{'cls','m','rate','family','kw': [(name, text, substitutable)],
+    'wrap'}]: constructor calls of installed unit classes that compile with
+    plain scalar/signal arguments and whose unit is part of the emitted
+    definition; found by introspection, nothing is assumed about a class that
+    is not confirmed by building the valid call first."""
+    global _CATALOGUE
+    if _CATALOGUE is not None:
+        return _CATALOGUE
+    import inspect
+    from sc3.synth import ugens as ugns, ugen as ugn
+    from sc3.synth.ugens import inout as iou
+    ns = gg.namespace()
+    out = []
+    classes = own = 0
+    for name, cls in sorted(ugns.installed_ugens.items()):
+        if not isinstance(cls, type) or issubclass(cls, iou.AbstractControl) \
+                or issubclass(cls, ugn.OutputProxy) or name not in ns:
+            continue
+        fam = check_family(cls, ugn)
+        found = False
+        for m in ('ar', 'kr', 'ir', 'new'):
+            f = getattr(cls, m, None)
+            if f is None:
+                continue
+            try:
+                params = list(inspect.signature(f).parameters.values())
+            except (TypeError, ValueError):
+                continue
+            sigtxt = {'ar': 'SinOsc.ar(440)', 'kr': 'SinOsc.kr(3)'}.get(m, '0.5')
+            kw = []
+            for p in params:
+                if p.kind not in (p.POSITIONAL_OR_KEYWORD, p.KEYWORD_ONLY):
+                    kw = None
+                    break
+                d = p.default
+                if p.name in COUNT_NAMES:
+                    kw.append((p.name, '2', False))
+                elif p.name in LIST_NAMES:
+                    kw.append((p.name, f'[{{bad}}, {sigtxt}]', True))
+                elif isinstance(d, (int, float)) and not isinstance(d, bool):
+                    kw.append((p.name, repr(d), True))
+                elif d is p.empty:
+                    if p.name in BUF_NAMES:
+                        kw.append((p.name, '0', True))
+                    else:
+                        kw.append((p.name, sigtxt, True))
+                # other defaults (None, strings, tuples): left alone
+            if not kw or not any(k[2] for k in kw):
+                continue
+            call = f'{name}.{m}(' + ', '.join(
+                f'{n}={t.format(bad=sigtxt)}' for n, t, _ in kw) + ')'
+            for wrap in WRAPPERS:
+                src = 'def graph():\n    ' + wrap.format(x=call) + '\n'
+                try:
+                    loc = dict(ns)
+                    exec(src, loc)
+                    raw = bytes(loc['SynthDef']('cat', loc['graph']).as_bytes())
+                    d = scgf.parse(raw)
+                except Exception:
+                    continue
+                us = [u for u in d.units if u.cls == name]
+                if not us:
+                    continue
+                out.append({'cls': name, 'm': m, 'family': fam, 'kw': kw,
+                            'wrap': wrap, 'rate': RATE_WORD[us[0].rate]})
+                found = True
+                break
+        if found:
+            classes += 1
+            own += fam != 'default-check'
+    acc.extra['catalogue'] = {
+        'entries': len(out), 'classes': classes,
+        'classes_with_own_input_check': own,
+        'families': sorted({e['family'] for e in out})}
+    _CATALOGUE = out
+    return out
+
+
+def invalid_ctor_program(rng, i, cat, gg):
+    ent = cat[(i // len(BAD_VALUES)) % len(cat)]
+    bad = sorted(BAD_VALUES)[i % len(BAD_VALUES)]
+    sigtxt = {'ar': 'SinOsc.ar(440)', 'kr': 'SinOsc.kr(3)'}.get(ent['m'], '0.5')
+    subs = [k for k, (_, _, ok) in enumerate(ent['kw']) if ok]
+    pos = rng.choice(subs)
+    args = []
+    for k, (n, t, _) in enumerate(ent['kw']):
+        if k == pos:
+            t = t.format(bad=BAD_VALUES[bad]) if '{bad}' in t else BAD_VALUES[bad]
+        else:
+            t = t.format(bad=sigtxt)
+        args.append(f'{n}={t}')
+    call = f"{ent['cls']}.{ent['m']}(" + ', '.join(args) + ')'
+    prog = gg.gen_program_c02(rng, 'plain')
+    prog['nodes'].append({'k': 'raw', 'src': ent['wrap'].format(x=call)})
+    what = f"{bad}-input/{ent['family']}/{ent['rate']}"
+    prog['kind'] = 'invalid-ctor:' + what
+    prog['invalid_call'] = call
+    return prog, 'invalid:' + what
+
+
 def run_shard(spec, acc):
     from vf import gen_graph as gg, scgf
     from sc3.synth.synthdesc import SynthDesc
     kind0 = spec['shard']['kind']
+    cat = build_catalogue(gg, scgf, acc) if kind0 == 'invalid-ctor' else None
+    if kind0 == 'invalid-ctor' and len(cat) < 50:
+        acc.mark_inconclusive(f'constructor catalogue has {len(cat)} entries')
+        return
     for i in iter_cases(spec):
         rng = case_rng(spec['seed'], 'C02', kind0, i)
         kind = kind0
         if kind0 == 'invalid':
             kind = 'invalid:' + gg.INVALID_KINDS[i % len(gg.INVALID_KINDS)]
-        prog = gg.gen_program_c02(rng, kind)
+        if kind0 == 'invalid-ctor':
+            prog, kind = invalid_ctor_program(rng, i, cat, gg)
+            acc.count('invalid_ctor_programs')
+        else:
+            prog = gg.gen_program_c02(rng, kind)
         sig = h64(json.dumps([prog['name'], prog['params'], prog['nodes'],
                               prog.get('variants')], sort_keys=True, default=str))
         invalid = kind.startswith('invalid:')
@@ -389,7 +541,12 @@ def run_shard(spec, acc):
         except Exception as e:
             if invalid and isinstance(e, (ValueError, TypeError)):
                 acc.count('invalid_rejected')
-                acc.count('invalid_rejected_' + kind.split(':')[1])
+                if kind0 == 'invalid-ctor':
+                    acc.count('invalid_ctor_rejected')
+                    acc.count('invalid_ctor_rejected_' + '/'.join(
+                        kind.split(':')[1].split('/')[1:]))
+                else:
+                    acc.count('invalid_rejected_' + kind.split(':')[1])
                 acc.case(sig, nontrivial=True)
             elif invalid:
                 # e.g. the dead-code KeyError of C01 hit first: no verdict
@@ -405,7 +562,11 @@ def run_shard(spec, acc):
             acc.case(sig, nontrivial=True)
             if invalid:
                 acc.count('invalid_rejected')
-                acc.count('invalid_rejected_' + kind.split(':')[1])
+                if kind0 == 'invalid-ctor':
+                    acc.count('invalid_ctor_rejected')
+                    acc.count('invalid_ctor_rejected_by_writer')
+                else:
+                    acc.count('invalid_rejected_' + kind.split(':')[1])
                 continue
             sites = tb_sites(e)
             site = ':'.join(sites[-1]) if sites else '?'
@@ -474,6 +635,7 @@ def run_shard(spec, acc):
                 key, detail = problems[0]
                 acc.violation(f'C02/invalid-graph-emitted/{what}',
                               {'case': i, 'kind': kind, 'first_problem': key,
+                               'invalid_call': prog.get('invalid_call'),
                                'detail': detail[:600], 'script': gg.script(prog)})
             else:
                 # compiled into a definition that satisfies every predicate
